@@ -531,11 +531,58 @@ def boundary_layer(case, profile):
                            [["reload", 0], ["tag", "t1"]]])
         pos = rng.randrange(len(case["ops"]) + 1) if rng.random() < 0.5 else 0
         case["ops"] = case["ops"][:pos] + sets + tail + case["ops"][pos:]
+    # ---- a limit placed where the first unconstrained Jacobian step lands (resolved by resolve_landing) -------------
+    if case.get("twin") is None and rng.random() < {"C09": 0.02, "C10": 0.09, "C15": 0.02}[profile]:
+        act = [j for j in range(n) if vary[j]["active"]]
+        inside = all(v["limits"] is None or ((v["limits"][0] is None or v["limits"][0] <= x) and (v["limits"][1] is None or x <= v["limits"][1]))
+                     for v, x in zip(vary, case["x0"]))
+        if act and inside:
+            case["land"] = [rng.choice(act), rng.randrange(7)]
+            if rng.random() < 0.7:
+                case["opts"]["check_limits"] = False
+            case["ops"] = [["step", 1, True, {}, False]] + case["ops"]
     return case
 
 
 def gen_case(rng, profile):
     return boundary_layer(gen_case_base(rng, profile), profile)
+
+
+def resolve_landing(cases):
+    """cases marked "land": [j, k] get the limit of knob j placed relative to the point v where the first Jacobian step of
+    the case lands when knob j is unlimited (found by running that step on the implementation): exactly at v, 1 or 3 ulps
+    or 1e-10 relative or 5e-13 short of it (the full step then overshoots the limit by that little and the knob must
+    be frozen), or one ulp beyond it (the step must pass).  Every accepted iterate is compared with the limits exactly."""
+    import copy
+    idx = [i for i, c in enumerate(cases) if c.get("land")]
+    if not idx:
+        return cases
+    probes = []
+    for i in idx:
+        c = copy.deepcopy(cases[i])
+        c["vary"][c["land"][0]]["limits"] = None
+        c["ops"] = [["step", 1, True, {}, False]]
+        del c["land"]
+        probes.append(c)
+    for i, r in zip(idx, run_cases(probes)):
+        c = cases[i]
+        j, k = c.pop("land")
+        rows = [w for st in r.get("steps", []) for w in st["obs"]["newrows"] if w["alpha"] >= 0]
+        if r["status"] != "ok" or not rows:
+            continue
+        v, x = float.fromhex(rows[0]["knobs"][j]), c["x0"][j]
+        if not math.isfinite(v) or v == x:
+            continue
+        up = v > x
+        back = -math.inf if up else math.inf
+        sg = 1.0 if up else -1.0
+        lim = [v, math.nextafter(v, back), math.nextafter(math.nextafter(math.nextafter(v, back), back), back),
+               v - sg * 1e-10 * abs(v), v - sg * 5e-13, math.nextafter(v, -back), v - sg * 3e-10 * abs(v)][k]
+        if (up and not lim > x) or (not up and not lim < x):
+            continue
+        c["vary"][j]["limits"] = [x - 1.0, lim] if up else [lim, x + 1.0]
+        c["landing"] = [j, k]
+    return cases
 
 
 # ---------------------------------------------------------------------------
@@ -953,6 +1000,11 @@ def distribution(cases, results):
         for op in c["ops"]:
             bl["broyden_0_ops"] += op[0] in ("solve", "step") and op[-1] is not False and op[-1] == 0
             bl["solve_n_steps_0"] += op[0] == "solve" and op[1] is not None and op[1] == 0
+    bl["limit_placed_where_the_first_step_lands"] = {}
+    for c in cases:
+        if c.get("landing"):
+            k = ["exactly", "1 ulp short", "3 ulps short", "1e-10 relative short", "5e-13 short", "1 ulp beyond", "3e-10 relative short"][c["landing"][1]]
+            bl["limit_placed_where_the_first_step_lands"][k] = bl["limit_placed_where_the_first_step_lands"].get(k, 0) + 1
     d["boundary_layer"] = bl
     return d
 
@@ -1060,7 +1112,8 @@ def run_property(ctx, pid, n_quick, n_thorough):
                 "in different containers, duck-typed transform hooks on targets (abs, square, scaling, lower / upper clip), target values as objects "
                 "with _value, container.vary_default, max_step 0 / 0.0 / 1e-300 / inf / numpy scalars (alone or with every other max_step None or 0), "
                 "tol 0, limits lo == hi and (0, 0), step 0, broyden=0, solve(n_steps=0), limits re-assigned so that iteration 0 / the current point "
-                "lies outside them (both check_limits settings) followed by solve / step / reload; profile " + pid +
+                "lies outside them (both check_limits settings) followed by solve / step / reload, a limit placed exactly at / 1-3 ulps / 5e-13 / 1e-10 relative "
+                "short of (or one ulp beyond) the point where the first unconstrained Jacobian step lands; profile " + pid +
                 "; non-trivial = at least one Jacobian step and the mechanism of the property exercised (see feature_key); "
                 "distinct by (function, start, ops, options)")
     proof_ok = vlib.standard_proof_part(ctx, f"props/{pid}.v", allowed_axioms=(), extra_targets=["run/RunOpt.vo"])
@@ -1071,7 +1124,7 @@ def run_property(ctx, pid, n_quick, n_thorough):
         n *= 3      # the mirrored source changed since the model was last validated: look harder (never an alarm by itself)
     ctx.cov["source_fingerprint"] = {"current": fp, "validated": known_fp}
     corpus = load_corpus(pid)
-    cases = corpus + [gen_case(ctx.rng, pid) for _ in range(n)]
+    cases = resolve_landing(corpus + [gen_case(ctx.rng, pid) for _ in range(n)])
     results = run_cases(cases)
     mism, outside = model_check(ctx, cases, results, "c")
     ctx.evaluations += sum(len(r["steps"]) + 1 for r in results)
@@ -1147,7 +1200,7 @@ def run_property(ctx, pid, n_quick, n_thorough):
             j = mism[0]
             what.append(f"correspondence model/Opt.v vs xdeps.optimize broke on {len(mism)} traces; first: case {j}, "
                         f"first differing operation {first_diff(ctx, cases[j], results[j])}")
-        extra = [gen_case(ctx.rng, pid) for _ in range(ctx.pick(1500, 4000))]
+        extra = resolve_landing([gen_case(ctx.rng, pid) for _ in range(ctx.pick(1500, 4000))])
         rs = run_cases(extra)
         found = [(k, f) for k, r in enumerate(rs) for f in fails_of(r, pid)]
         if found:
